@@ -361,19 +361,19 @@ func c15Corrupt(r *explore.Runner, codec compression.Codec, unit string, stream 
 // than 64 MiB although the stream itself is tiny.
 func declaresHuge(b []byte) bool {
 	for len(b) >= 4 {
-		bl := int(be32u(b))
+		bl := int64(be32u(b))
 		if bl > 64<<20 {
 			return true
 		}
 		b = b[4:]
-		got := 0
+		got := int64(0)
 		for got < bl {
 			if len(b) < 4 {
 				return false
 			}
-			cl := int(be32u(b))
+			cl := int64(be32u(b))
 			b = b[4:]
-			if cl > len(b) {
+			if cl > int64(len(b)) {
 				return false
 			}
 			dl, err := gsnappy.DecodedLen(b[:cl])
@@ -383,7 +383,7 @@ func declaresHuge(b []byte) bool {
 			if dl > 64<<20 {
 				return true
 			}
-			got += dl
+			got += int64(dl)
 			b = b[cl:]
 		}
 	}
@@ -397,23 +397,23 @@ func framingError(b []byte) string {
 		if len(b) < 4 {
 			return "truncated block length"
 		}
-		bl := int(be32u(b))
+		bl := int64(be32u(b))
 		b = b[4:]
-		got := 0
+		got := int64(0)
 		for got < bl {
 			if len(b) < 4 {
 				return "truncated chunk length"
 			}
-			cl := int(be32u(b))
+			cl := int64(be32u(b))
 			b = b[4:]
-			if cl > len(b) {
+			if cl > int64(len(b)) {
 				return "chunk longer than the stream"
 			}
 			dl, err := gsnappy.DecodedLen(b[:cl])
 			if err != nil {
 				return "" // chunk-level problem, not framing
 			}
-			got += dl
+			got += int64(dl)
 			b = b[cl:]
 		}
 		if got != bl {
@@ -434,7 +434,7 @@ func init() {
 		Rule: "(a) payload sizes 0..64 and {chunk-1, chunk, chunk+1, 2chunk-1, 2chunk, 2chunk+1, 3chunk+5} x 3 content classes, as one buffer, two buffers cut at every position (small) or at chunk edges (large), three buffers for sizes <=16: client compress -> independent reader = input = client decompress; (b) conforming server streams from an independent writer (literal-only snappy and library snappy): every composition into <=3 blocks x 1..3 chunks; (c) every truncation and 8 (thorough 255) substitute values at every byte of small streams: no panic, and any data returned equals what the independent reader returns. Non-trivial = non-empty payload / any damaged stream. (a2) every size 65..9000 (thorough 70000) x {compressible, incompressible} x state of the client's buffer pool {cold, warm from the previous round, holding only a tiny buffer}, each in its own controlled execution with a deterministic pool.",
 		Assumptions: []string{"raw snappy carries no checksum: a flipped literal byte is undetectable by any conforming reader, so the oracle for corruption is differential", "chunk = 218421 bytes (Hadoop SnappyCodec buffer)"},
 		Quick:       90 * time.Second, Thorough: 10 * time.Minute,
-		Direct: c15Direct,
+		Direct: c15Direct, Arch32: true,
 		// compression happens in the sender's goroutine: the same free-running body as C05's
 		Race: func() []RaceBody { return c05Race()[1:] },
 	})
